@@ -275,6 +275,8 @@ WOPNFile *WOPN_LoadBankFromMem(void *mem, size_t length, int *error)
             SET_ERROR(WOPN_ERR_NEWER_VERSION);
             return NULL;
         }
+        if(version == 0)
+            version = 1; /* There is no version 0: such data is read with the version 1 layout */
         GO_FORWARD(2);
     }
 
@@ -388,6 +390,8 @@ int WOPN_LoadInstFromMem(OPNIFile *file, void *mem, size_t length)
         version = toUint16LE(cursor);
         if(version > wopn_latest_version)
             return WOPN_ERR_NEWER_VERSION;
+        if(version == 0)
+            version = 1; /* There is no version 0: such data is read with the version 1 layout */
         GO_FORWARD(2);
     }
 
